@@ -17,6 +17,7 @@
 # along with this program.  If not, see <http://www.gnu.org/licenses/>.
 
 import os
+import re
 from numbers import Number
 
 import numpy as np
@@ -172,7 +173,17 @@ class DefaultFormatter(BaseFormatter):
             Formatted comment string
         """
 
-        return self._comment_template.format(text)
+        # The text must stay on its line and inside the delimiters:
+        # line breaks and the closing symbols would otherwise let it
+        # be read as executable G-code by the machine
+
+        opening, _, closing = self._comment_template.partition("{}")
+        text = re.sub(r"[\r\n]+", " ", text)
+
+        if closing.strip():
+            text = text.replace(closing.strip(), " ")
+
+        return f"{opening}{text}{closing}"
 
     @typechecked
     def command(self,
